@@ -564,3 +564,99 @@ def _iso_post(st, interp, C, res):
 
 U_TABLE_ISOTOPE = [Unit("PeriodicTable.isotope[%s]" % k, CORE + ".PeriodicTable.isotope", _iso_inputs(k), _iso_post,
                         replay={"module": "c08", "task": "replay"}) for k in ("no-dash", "one-dash", "two-dashes")]
+
+
+# ------------------------------------------------------------------------------ _get_table and the four restorers (unpickling)
+
+def _gt_inputs(known):
+    def mk(st, interp):
+        use_state(st)
+        t1, t2 = VObj("Table", {"name": "T1"}), VObj("Table", {"name": "public"})
+        reg = VDict([["public", t2], ["T1", t1]])
+        st.ghost.setdefault("module_state", {})[(CORE, "PRIVATE_TABLES")] = reg
+        name = {"known": "T1", "public": "public", "unknown": "T9"}[known]
+        return [name], {}, {"reg": reg, "t1": t1, "t2": t2, "known": known}
+    return mk
+
+
+def _gt_post(st, interp, C, res):
+    if C["known"] == "unknown":
+        st.oblige("post.a name that is not registered raises ValueError (never another table)",
+                  z3.BoolVal(res.outcome == "raise" and res.exc == "ValueError"), kind="raises",
+                  info={"outcome": res.outcome, "exc": getattr(res, "exc", None)})
+        return
+    if res.outcome == "raise":
+        st.oblige("never-raises for a registered name", False, kind="raises", info={"exc": res.exc})
+        return
+    st.oblige("post.returns the table registered under exactly that name",
+              z3.BoolVal(res.value is (C["t1"] if C["known"] == "known" else C["t2"])))
+    st.oblige("post.the registry is unchanged", z3.BoolVal(len(C["reg"].entries) == 2))
+
+
+def c_default_table_public(interp, st, args, kw):
+    reg = st.ghost["module_state"][(CORE, "PRIVATE_TABLES")]
+    return reg.entries[0][1] if not args or args[0] is None else args[0]
+
+
+U_GET_TABLE = [Unit("_get_table[%s name]" % k, CORE + "._get_table", _gt_inputs(k), _gt_post,
+                    contracts={CORE + ".default_table": c_default_table_public}, replay={"module": "c10", "task": "replay"})
+               for k in ("known", "public", "unknown")]
+
+
+def c_get_table_rec(interp, st, args, kw):
+    st.ghost.setdefault("recorded_calls", []).append(("_get_table", list(args)))
+    return VObj("TableStub2", {"name": args[0]})
+
+
+def c_tablestub_getitem(interp, st, args, kw):
+    return VObj("ElStub2", {"table": args[0], "Z": args[1], "ion": VObj("IonSetStub", {"of": ("el", args[1])})})
+
+
+def c_elstub_getitem2(interp, st, args, kw):
+    return VObj("IsoStub2", {"el": args[0], "A": args[1], "ion": VObj("IonSetStub", {"of": ("iso", args[0].attrs["Z"], args[1])})})
+
+
+def c_ionset_getitem(interp, st, args, kw):
+    return VObj("IonStub2", {"of": args[0].attrs["of"], "q": args[1]})
+
+
+def _mk_inputs(kind):
+    def mk(st, interp):
+        use_state(st)
+        t = VObj("Arg", {"what": "table name"})
+        z, a, q = (st.fresh(n, z3.IntSort()) for n in ("Z", "A", "charge"))
+        args = {"element": [t, z], "isotope": [t, z, a], "ion": [t, z, q], "isotope_ion": [t, z, a, q]}[kind]
+        return args, {}, {"t": t, "Z": z, "A": a, "q": q, "kind": kind}
+    return mk
+
+
+def _mk_post(st, interp, C, res):
+    if res.outcome == "raise":
+        st.oblige("never-raises", False, kind="raises", info={"exc": res.exc})
+        return
+    calls = st.ghost.get("recorded_calls", [])
+    st.oblige("post.the table is looked up once, by the pickled table name", z3.BoolVal(len(calls) == 1 and calls[0][1][0] is C["t"]))
+    v = res.value
+    kind = C["kind"]
+    if kind == "element":
+        ok = isinstance(v, VObj) and v.cls == "ElStub2"
+        st.oblige("post.returns table[Z]", z3.BoolVal(ok) if not ok else spec.eq_goal(interp, st, v.attrs["Z"], C["Z"]))
+    elif kind == "isotope":
+        ok = isinstance(v, VObj) and v.cls == "IsoStub2"
+        st.oblige("post.returns table[Z][A]", z3.BoolVal(ok) if not ok else z3.And(spec.eq_goal(interp, st, v.attrs["A"], C["A"]),
+                                                                                   spec.eq_goal(interp, st, v.attrs["el"].attrs["Z"], C["Z"])))
+    elif kind == "ion":
+        ok = isinstance(v, VObj) and v.cls == "IonStub2" and v.attrs["of"][0] == "el"
+        st.oblige("post.returns table[Z].ion[charge]", z3.BoolVal(ok) if not ok else z3.And(spec.eq_goal(interp, st, v.attrs["q"], C["q"]),
+                                                                                            spec.eq_goal(interp, st, v.attrs["of"][1], C["Z"])))
+    else:
+        ok = isinstance(v, VObj) and v.cls == "IonStub2" and v.attrs["of"][0] == "iso"
+        st.oblige("post.returns table[Z][A].ion[charge]",
+                  z3.BoolVal(ok) if not ok else z3.And(spec.eq_goal(interp, st, v.attrs["q"], C["q"]), spec.eq_goal(interp, st, v.attrs["of"][1], C["Z"]),
+                                                       spec.eq_goal(interp, st, v.attrs["of"][2], C["A"])))
+
+
+U_MAKE = [Unit("_make_%s" % k, CORE + "._make_" + k, _mk_inputs(k), _mk_post,
+               contracts={CORE + "._get_table": c_get_table_rec, "TableStub2.__getitem__": c_tablestub_getitem,
+                          "ElStub2.__getitem__": c_elstub_getitem2, "IonSetStub.__getitem__": c_ionset_getitem},
+               replay={"module": "c08", "task": "replay"}) for k in ("element", "isotope", "ion", "isotope_ion")]
